@@ -127,7 +127,19 @@ pub fn check(tape: &[u32]) -> CheckResult {
         s.palette = Some(NewPalette { first, entries: entries.clone() });
     }
     let enc = encode(&s, &Plan::plain());
-    let f = AsepriteFile::read(&enc.bytes[..]).map_err(|e| Failure::new("load-error", format!("palette file failed to load: {}", e)))?;
+    // a third of the new-style palettes are followed, in a second frame, by another palette chunk that covers only the
+    // first half of the range with other colours and announces a smaller palette: whatever palette the reader ends up
+    // with, the mapper has to agree with what ColorPalette::color reports
+    let mut bytes = enc.bytes.clone();
+    if !legacy && entries.len() >= 4 && t.chance(1, 3) {
+        let half: Vec<PalEntry> = entries[..entries.len() / 2].iter().map(|e| PalEntry { rgba: [e.rgba[0] ^ 0x55, e.rgba[1], e.rgba[2].wrapping_add(9), e.rgba[3]], name: None }).collect();
+        let c2 = crate::encode::finish_chunk(crate::encode::palette_chunk(&NewPalette { first, entries: half }, &mut None), 0, &mut Rng(1)).bytes;
+        let mut p = super::robust::to_pieces(&enc);
+        let hdr = p.frames[0].0.clone();
+        p.frames.push((hdr, vec![c2]));
+        bytes = super::robust::assemble(&p, true);
+    }
+    let f = AsepriteFile::read(&bytes[..]).map_err(|e| Failure::new("load-error", format!("palette file failed to load: {}", e)))?;
     let pal = f.palette().ok_or_else(|| Failure::new("load-error", "no palette"))?;
     let failure = t.u8_biased();
     let transparent = if t.chance(1, 2) { Some(t.u8_biased()) } else { None };
